@@ -381,6 +381,43 @@ def cluster_worker(part, natoms):
     part.outcome(("cluster", natoms > 4096))
 
 
+def count_sweep_worker(part, ns):
+    """
+    EVERY atom count of an interval (a blocked / chunked evaluation that mishandles some remainder has nowhere to hide below the bound):
+    n atoms of a lattice cluster listed in a scrambled order, evaluated 0.6 A from the first, the middle and the LAST atoms of the
+    list (a dropped or doubled atom changes the density next to it by orders of magnitude) - still the sum of the tabulated atoms
+    """
+    from chmpy.interpolate.density import PromoleculeDensity
+
+    for natoms in ns:
+        m = int(round(natoms ** (1.0 / 3.0))) + 1
+        g = (np.arange(m) - (m - 1) / 2.0) * 1.9
+        sites = np.array(list(itertools.product(g, g, g)))
+        order = np.argsort(np.linalg.norm(sites + np.array([0.11, 0.07, 0.03]), axis=1), kind="stable")
+        sites = sites[order][:natoms]
+        perm = np.argsort((np.arange(natoms) * 37 + 11) % 101, kind="stable")       # listed neither by distance nor by element
+        sites = sites[perm]
+        zs = np.array([(1, 6, 8, 7, 17, 16, 35)[k % 7] for k in range(natoms)])
+        idx = sorted(set([0, natoms // 3, natoms // 2, max(0, natoms - 12), max(0, natoms - 2), natoms - 1]))
+        pts = sites[idx] + np.array([0.45, 0.3, -0.25])
+        case = {"kind": "count", "natoms": int(natoms)}
+        part.ev()
+        part.state(("count", int(natoms)))
+        part.tr(len(pts))
+        try:
+            got = np.asarray(PromoleculeDensity((zs, sites)).rho(pts), dtype=np.float64)
+        except Exception as e:
+            part.fail("count:raise", "a cluster of %d atoms raised %r" % (natoms, e), case)
+            continue
+        want, alt = interp.promolecule_rho(zs, sites.astype(np.float32).astype(np.float64), pts.astype(np.float32).astype(np.float64))
+        e = relerr(got, want, alt)
+        part.dev("count_sweep_rel", e)
+        if not (e <= REL):
+            part.fail("count:sum-of-atoms:%s" % ("n>48" if natoms > 48 else "n<=48"), "density of %d atoms (scrambled listing), evaluated next to the first / middle / last listed atoms, deviates from the "
+                      "sum of tabulated atomic densities (rel. err %.3g)" % (natoms, e), case)
+        part.outcome(("count", natoms // 64))
+
+
 def pairs_worker(part, z1s):
     """
     all 103 x 103 ORDERED element pairs: atom Z1 at the origin, atom Z2 at 1.4 A - the molecule's density is the sum of the two tabulated
@@ -622,6 +659,9 @@ def worker(part, job, seed):
     if job[0] == "cluster":
         cluster_worker(part, job[1])
         return
+    if job[0] == "count":
+        count_sweep_worker(part, job[1])
+        return
     if job[0] == "far":
         far_worker(part, job[1])
         return
@@ -675,6 +715,8 @@ def run(ctx):
     jobs += [("pairs", list(c)) for c in chunked(range(1, 104), 4)]
     jobs += [("all-elements", o) for o in ("ascending", "descending", "scrambled")]
     jobs += [("far-origin", o) for o in ((0.0, 0.0, 0.0), (100.0, -200.0, 300.0), (1000.0, -500.0, 2000.0), (-3000.0, 0.0, 0.0), (10000.0, 20000.0, -15000.0))]
+    count_to = 1100 if ctx.thorough else 300
+    jobs += [("count", list(c)) for c in chunked(range(1, count_to + 1), 25)]
     jobs += [("cluster", n) for n in ((255, 256, 257, 1000, 4095, 4096, 4097, 8193) if not ctx.thorough else (255, 256, 257, 1000, 4095, 4096, 4097, 8193, 16385))]      # (beyond ~16k atoms the constructor's full SVD of the 3 x N coordinate matrix needs N^2 numbers: 17 GB at 65537 atoms - infeasible here, see DESIGN)
     bs = BATCH_SIZES if ctx.thorough else tuple(n for n in BATCH_SIZES if n <= 70001)
     jobs += [("batch", bs[i::4]) for i in range(4)]
@@ -685,7 +727,8 @@ def run(ctx):
                 "bipartitions (additivity; weights with 3 backgrounds; complements), rigid motions (23 octahedral + 3 generic rotations + 3 translations + 1 "
                 "combined: all of them on every %dth configuration, 3 on the others); distinct = elements and configurations"
                 % (kmax, ELEMENTS, len(configs), "", 5 if ctx.thorough else 20))
-    ctx.bounds = {"configurations": len(configs), "max_atoms": kmax, "rel_tol": REL, "batch_sizes": list(bs), "far_from_origin": "a 5-atom molecule displaced by 0, 3e2, 2e3, 3e3, 2e4 A (reference at the float32-rounded coordinates)", "element_pairs": "all 103 x 103 ordered pairs (density and share) + one molecule of all 103 elements in 3 orders", "extended_clusters": "%d clusters with exterior atoms 3..30 A from the interior, points on shells round every atom" % len(far)}
+    ctx.rule += "; (count sweep) EVERY atom count 1..%d of a scrambled lattice cluster, evaluated next to its first / middle / last listed atoms" % count_to
+    ctx.bounds = {"atom_count_sweep": [1, count_to], "configurations": len(configs), "max_atoms": kmax, "rel_tol": REL, "batch_sizes": list(bs), "far_from_origin": "a 5-atom molecule displaced by 0, 3e2, 2e3, 3e3, 2e4 A (reference at the float32-rounded coordinates)", "element_pairs": "all 103 x 103 ordered pairs (density and share) + one molecule of all 103 elements in 3 orders", "extended_clusters": "%d clusters with exterior atoms 3..30 A from the interior, points on shells round every atom" % len(far)}
     ctx.assumptions = ["the reference is evaluated at the float32-rounded coordinates the kernel receives", "beyond the table end either fill value (last tabulated value or 0) is accepted",
                        "points within 0.3 A of a nucleus excluded, as the property says", "compiled kernel exercised as built; Python-side row binding, unit handling and wrappers are live"]
     ctx.sample({"a_configuration": {"sites": [0, 4], "zs": [8, 1]}, "n_points": int(len(eval_points(SITES[[0, 4]])))})
@@ -702,6 +745,8 @@ def replay(ctx, case):
         argument_history_worker(ctx, None)
     elif case["kind"] == "cluster":
         cluster_worker(ctx, case["natoms"])
+    elif case["kind"] == "count":
+        count_sweep_worker(ctx, [case["natoms"]])
     elif case["kind"] == "far-origin":
         far_origin_worker(ctx, tuple(case["offset"]))
     elif case["kind"] == "pair":
